@@ -91,7 +91,17 @@ func (p *poller) addConn(c *Conn) error {
 	if err != nil {
 		p.g.connsUnix[fd] = nil
 		_ = c.closeWithError(err)
+		return err
 	}
+	// A write issued before the fd was registered (inside onOpen, or by a
+	// goroutine started there) could not arm EPOLLOUT: EPOLL_CTL_MOD fails
+	// on an unregistered fd. Arm it now if a backlog is waiting.
+	c.mux.Lock()
+	if !c.closed && len(c.writeList) > 0 {
+		c.isWAdded = true
+		_ = p.modWrite(fd)
+	}
+	c.mux.Unlock()
 	return err
 }
 
